@@ -457,6 +457,11 @@ theorem from_mesh_preserves_respecting {α β : Type} [Num α] {c : RowCmp α} (
     g (meshArray (fromMesh c soup).1 (fromMesh c soup).2) = g soup :=
   hg _ _ (fromMesh_roundtrip h soup)
 
+-- (audit 2) this is about the two glue lines only (`fromMesh`, then `meshArray`).  `TriangularMesh.from_mesh` then calls the constructor
+-- with the DEFAULT `reorient_faces=True`: for a soup with inward-facing triangles the real `.mesh` is NOT the soup (those triangles
+-- come back with two corners exchanged, `Kern.reorientedMesh`, C16) and μ₀H of the flipped sheets changes sign.  So "`from_mesh`
+-- preserves the field" is proved for `reorient_faces="skip"` (what the `mesh-unique` stream runs) and for soups that the
+-- re-orientation leaves alone; the default path is the `mesh-converters` oracle's.
 /-- over ℝ (`==` is identity) the round trip is an identity: `TriangularMesh.from_mesh(soup).mesh = soup` -/
 theorem from_mesh_roundtrip_real (soup : List (Tri ℝ)) :
     meshArray (fromMesh RowCmp.real soup).1 (fromMesh RowCmp.real soup).2 = soup :=
@@ -498,6 +503,10 @@ example : ¬ RowLaws (⟨fun _ _ => false, fun _ _ => false⟩ : RowCmp Unit) :=
   have := h.refl ⟨(), (), ()⟩
   simp [rowEq] at this
 
+-- (audit 2) there is no model FUNCTION of `to_TriangleCollection` (nothing in Model/, no driver command): the left-hand side below is
+-- the auditor-readable transcription "sum over `v in self.mesh` of `BHJM_triangle(polarization, vertices=v)`" of its first two lines;
+-- `bhjmTriangle` and `wrapH` are driver-run.  `coll.position = self.position`, `coll.orientation = …` (pose, paths) and the style copy
+-- are not in the statement.
 /-- C13 (`to_TriangleCollection`): the Collection of `Triangle(polarization, vertices = v) for v in self.mesh` — whose field is the
 sum of its children's fields (C05/C06) — has H = the sheet sum / μ₀, B = the sheet sum with NO inside term, J = M = 0: the `wrapH`
 dispatch of the TriangularMesh with the inside verdict replaced by `false` -/
@@ -560,6 +569,23 @@ theorem trimesh_glue_additive {M : Type} (f : Field) (meshId : MeshRow ℝ → M
 example : wrapH .J (true || true) (⟨0, 0, 1⟩ : V3 ℝ) (zero3 + zero3) ≠
     wrapH .J true ⟨0, 0, 1⟩ zero3 + wrapH .J true ⟨0, 0, 1⟩ zero3 := wrapH_glue_needs_disjoint
 
+-- (audit 2) `trimesh_glue_additive` literally: for J and M the conclusion IS the pair of hypotheses `hin`, `hdisj` (the row's J is
+-- `if inside … then pol else 0`); the content is in B and H, i.e. in `trimesh_glue_sheets` (the walls cancel).  `inside` / `meshId`
+-- are free parameters: that the ray-casting test of the glued mesh is the disjunction of the parts' tests (`hin`) is assumed, not
+-- proved for `maskInsideTrimesh` (C16 / oracle `glued`).  Neither theorem had an example with a non-empty wall list; here is one
+-- that APPLIES `trimesh_glue_sheets`: the wall (0,0,0), (0,1,0), (1,0,0) once in each winding, arbitrary remaining faces
+example (pol : V3 ℝ) (A' B' : List (Tri ℝ)) :
+    sheetSum (A' ++ B') pol ⟨1 / 4, 1 / 4, 1 / 2⟩ =
+      sheetSum ([((⟨0, 0, 0⟩ : V3 ℝ), (⟨0, 1, 0⟩ : V3 ℝ), (⟨1, 0, 0⟩ : V3 ℝ))] ++ A') pol ⟨1 / 4, 1 / 4, 1 / 2⟩ +
+      sheetSum ([((⟨0, 0, 0⟩ : V3 ℝ), (⟨1, 0, 0⟩ : V3 ℝ), (⟨0, 1, 0⟩ : V3 ℝ))] ++ B') pol ⟨1 / 4, 1 / 4, 1 / 2⟩ := by
+  apply trimesh_glue_sheets (List.Perm.refl _) (List.Perm.refl _)
+    (List.Forall₂.cons (TriFlipped.swap12 _ _ _) List.Forall₂.nil)
+  intro t ht
+  rw [List.mem_singleton] at ht
+  subst ht
+  refine ⟨?_, ?_, ?_⟩ <;>
+    simp only [TriEdgeOnV, triEdgeOn, V3.dot, V3.cross, V3.sub_x, V3.sub_y, V3.sub_z] <;> norm_num
+
 /-- C13 (two tetrahedra sharing a face): `Tetrahedron(a,b,c,d)` and `Tetrahedron(a,b,c,e)` with the apexes `d`, `e` on opposite
 sides of the common face; observer off the plane of that face and outside the `on_edge` tolerance of its edges.  The sum of the two
 `BHJM_magnet_tetrahedron` outputs (all four fields, same polarization) is the `wrapH` dispatch — inside one or the other — of the
@@ -619,6 +645,31 @@ theorem tetra_list_glue (f : Field) (Ts : List (V3 ℝ × V3 ℝ × V3 ℝ × V3
     sum3 (Ts.map fun T => bhjmTetra f T.1 T.2.1 T.2.2.1 T.2.2.2 pol x) =
       wrapH f (Ts.any fun T => tetraInside T.1 T.2.1 T.2.2.1 T.2.2.2 x) pol (sheetSum Bd pol x) :=
   Kern.tetra_list_glue f Ts Bd W W' pol x hperm hf hoff hdisj
+
+-- (audit 2) non-vacuity of `tetra_list_glue` (it had none): the bipyramid of `tetra_pair_glue` as a LIST of two tetrahedra meets
+-- every hypothesis — `hperm` (the eight faces are the six outer ones, the wall and its flipped copy), `hf`, `hoff`, `hdisj` —
+-- for every base `a b c` and apexes `d`, `e` on opposite sides (numbers: the example above)
+example (f : Field) (a b c d e pol x : V3 ℝ)
+    (hd : 0 < det3 (b - a) (c - a) (d - a)) (he : det3 (b - a) (c - a) (e - a) < 0)
+    (hx : det3 (b - a) (c - a) (x - a) ≠ 0) (hoff : TriOffEdges a c b x) :
+    sum3 ([(a, b, c, d), (a, b, c, e)].map fun T => bhjmTetra f T.1 T.2.1 T.2.2.1 T.2.2.2 pol x) =
+      wrapH f ([(a, b, c, d), (a, b, c, e)].any fun T => tetraInside T.1 T.2.1 T.2.2.1 T.2.2.2 x) pol
+        (sheetSum [(a, b, d), (b, c, d), (a, d, c), (a, e, b), (b, e, c), (a, c, e)] pol x) := by
+  apply tetra_list_glue f _ _ [(a, c, b)] [(a, b, c)] pol x
+  · have f1 : tetraFaces (a, b, c, d) = [(a, c, b), (a, b, d), (b, c, d), (a, d, c)] := by
+      simp [tetraFaces, tetraChirality, n, not_lt.mpr hd.le]
+    have f2 : tetraFaces (a, b, c, e) = [(a, e, b), (a, b, c), (b, e, c), (a, c, e)] := by
+      simp [tetraFaces, tetraChirality, n, he]
+    simp only [List.flatMap_cons, List.flatMap_nil, f1, f2, List.append_nil, List.cons_append, List.nil_append]
+    refine List.Perm.trans ?_ (List.perm_middle (l₁ := [(a, b, d), (b, c, d), (a, d, c), (a, e, b), (b, e, c), (a, c, e)])
+      (a := (a, c, b)) (l₂ := [(a, b, c)])).symm
+    refine List.Perm.cons _ (List.Perm.cons _ (List.Perm.cons _ (List.Perm.cons _ (List.Perm.cons _ ?_))))
+    exact List.perm_append_comm (l₁ := [(a, b, c)]) (l₂ := [(b, e, c), (a, c, e)])
+  · exact List.Forall₂.cons (TriFlipped.swap12 a c b) List.Forall₂.nil
+  · intro t ht; rw [List.mem_singleton] at ht; subst ht; exact hoff
+  · simp only [List.pairwise_cons, List.mem_singleton, forall_eq, List.not_mem_nil, IsEmpty.forall_iff, implies_true,
+      List.Pairwise.nil, and_true]
+    exact tetra_pair_disjoint a b c d e x hd he hx
 
 end MagpyVerif.C13
 
